@@ -53,8 +53,8 @@ func h09() {
 
 	switch part {
 	case 0: // struct field ids
-		for i := 0; i < 2; i++ {
-			f := &ast.Field{Name: []string{"a", "b"}[i], Type: ast.BaseType{ID: ast.I32TypeID}, Requiredness: ast.Optional, Line: i + 2}
+		for i := 0; i < verifParam("nfields"); i++ {
+			f := &ast.Field{Name: []string{"a", "b", "c"}[i], Type: ast.BaseType{ID: ast.I32TypeID}, Requiredness: ast.Optional, Line: i + 2}
 			if verifBool() {
 				f.IDUnset = true
 			} else {
@@ -86,6 +86,26 @@ func h09() {
 		prog.Definitions = append(prog.Definitions, &ast.Struct{Name: "S", Type: ast.StructType, Fields: fields, Line: 20})
 	}
 
+	// The effective id of every field, computed here from the source alone
+	// (wide integers): an explicit id stands for itself; in non-strict mode a
+	// field without id gets the next id below the last negative one seen
+	// (starting at -1). compileFields writes ids back into the AST, so this
+	// must be taken before compiling.
+	var wantIDs []int
+	var wantUnset []bool
+	next := -1
+	for _, f := range fields {
+		id := f.ID
+		if f.ID < 0 && !f.IDUnset {
+			next = f.ID - 1
+		} else if f.IDUnset {
+			id = next
+			next--
+		}
+		wantIDs = append(wantIDs, id)
+		wantUnset = append(wantUnset, f.IDUnset)
+	}
+
 	err := c.gather(m, prog)
 	if err == nil {
 		err = c.link(m)
@@ -99,13 +119,16 @@ func h09() {
 	switch part {
 	case 0:
 		s := m.Types["S"].(*StructSpec)
-		verifAssert(len(s.Fields) == 2, "field-count")
+		verifAssert(len(s.Fields) == len(fields), "field-count")
 		for i, f := range s.Fields {
-			// compileFields writes the effective id (explicit or auto-assigned) back into the AST
-			verifAssert(int(f.ID) == fields[i].ID, "field-id-equals-source")
+			if !wantUnset[i] || nonStrict {
+				// (an unset id in strict mode is rejected; nothing to compare)
+				verifAssert(int(f.ID) == wantIDs[i], "field-id-equals-source")
+			}
+			for j := 0; j < i; j++ {
+				verifAssert(s.Fields[j].ID != f.ID, "field-ids-unique")
+			}
 		}
-		verifAssert(s.Fields[0].ID != s.Fields[1].ID, "field-ids-unique")
-		verifAssert(fields[0].ID != fields[1].ID, "source-field-ids-unique")
 	case 1:
 		e := m.Types["E"].(*EnumSpec)
 		verifAssert(len(e.Items) == 3, "enum-item-count")
